@@ -67,6 +67,37 @@ pub fn run(ws: &Ws, seed: u64) -> Result<i32, String> {
         }
     }
     println!("selftest: catalogue labels checked, {bad} mismatch(es)");
+    // random programs: those without an injected error should be accepted, the others rejected
+    let (mut ok_acc, mut ok_n, mut bad_rej, mut bad_n) = (0, 0, 0, 0);
+    for k in 0..120u64 {
+        let mut rng = Rng::derive(seed, "random-program", k);
+        let inject = (k % 4) as u8;
+        let p = catalogue::random_program(&mut rng, inject);
+        let mut world = World::default();
+        let mut argv = Vec::new();
+        for f in &p.files {
+            world.entries.push(Entry { path: f.name.clone(), kind: EntryKind::File { content: f.text.clone(), hex: None }, mode: None });
+            argv.push(f.name.clone());
+        }
+        let s = Scenario { world, argv, sim: Sim::default(), note: String::new(), meta: serde_json::Value::Null };
+        let r = exec.run(&s)?;
+        let diags = parse_diagnostics(&r.stderr, false);
+        let accepted = !diags.iter().any(|d| d.error) && r.exit == Exit::Code(0);
+        if r.crashed().is_some() {
+            println!("selftest: random program {k} (inject {inject}) crashes the compiler: {}", r.crashed().unwrap());
+        }
+        if inject == 0 {
+            ok_n += 1;
+            ok_acc += accepted as u32;
+            if !accepted {
+                println!("selftest: random program {k} without injected error is rejected: {:?}", diags.iter().filter(|d| d.error).map(|d| format!("{}:{}", d.code, d.message)).collect::<Vec<_>>());
+            }
+        } else {
+            bad_n += 1;
+            bad_rej += (!accepted) as u32;
+        }
+    }
+    println!("selftest: random programs: {ok_acc}/{ok_n} without injected error accepted, {bad_rej}/{bad_n} with injected error rejected");
 
     // ---- 2. determinism of whole executions
     let props: Vec<Box<dyn Property>> = vec![Box::new(crate::props::C18), Box::new(crate::props::C07)];
